@@ -46,7 +46,7 @@ def guard_reasons(p, evs, snap_gen_leaf):
 
 
 def run(ctx, chk):
-    fb = ctx.facts('dev')
+    fb = ctx.facts()
     chk.explanation = ('G1: every exit of snapshot() that returns the cache without accepting a fresh copy is guarded by one of '
                        '{version==0, generation==0, generation==cached generation, generation odd}; G2: the cached generation is '
                        'assigned only together with the cached record, from the generations compared equal; G3: beyond the early '
